@@ -58,6 +58,12 @@ func Generated() []Prog {
 		"module Mone\n  include Mtwo\n  def aa\n    @w\n  end\nend\nmodule Mtwo\n  include Mone\n  def bb\n    1\n  end\nend\nclass Cyc\n  include Mone\nend\nc = Cyc.new\nc.aa\nc.zork\n",
 		"class Cya\n  include Mcy\n  def aa\n    1\n  end\nend\nmodule Mcy\n  include Cya\n  def bb\n    @q\n  end\nend\nCya.new.bb\nCya.new.zork\n",
 		"class Cyx < Cyy\n  def aa\n    1\n  end\nend\nclass Cyy < Cyx\nend\nCyx.new.aa\nCyy.new.zork\n",
+		// attribute macros, constants, keyword arguments, ranges in when, multiple assignment, ternaries, string ops
+		"class Account\n  attr_reader :owner\n  attr_accessor :balance\n\n  LIMIT = 100\n\n  def initialize(owner, balance)\n    @owner = owner\n    @balance = balance\n  end\n\n  def over?\n    @balance > LIMIT\n  end\nend\nacc = Account.new(\"ann\", 10)\nacc.balance = 20\ndbtp acc.owner\ndbtp acc.balance\ndbtp acc.over?\nacc.owner = \"bob\"\nacc.missing_attr\n",
+		"def area(width:, height: 2)\n  width * height\nend\nar1 = area(width: 3)\nar2 = area(height: 4, width: 1.5)\ndbtp ar1\ndbtp ar2\narea(height: 1)\narea(width: 1, depth: 2)\n",
+		"grade = 85\nlabel = case grade\n  when 90..100\n    \"a\"\n  when 80..89\n    \"b\"\n  else\n    nil\n  end\ndbtp label\nlabel.upcase\nfirst, second = 1, \"two\"\ndbtp first\ndbtp second\nthird = first > 0 ? second : nil\ndbtp third\n",
+		"name = \"ann\"\ngreeting = \"hi \" + name\ndbtp greeting\ndbtp greeting.length\nparts = greeting.split(\" \")\ndbtp parts\nparts.each do |pt|\n  dbtp pt\n  pt.nope\nend\nsym = name.to_sym\ndbtp sym\ncount = parts.length + 1\ndbtp count\ncount.upcase\n",
+		"module Shapes\n  PI2 = 6.28\n\n  class Circle\n    def initialize(r)\n      @r = r\n    end\n\n    def circumference\n      @r * PI2\n    end\n  end\n\n  def self.unit\n    Circle.new(1)\n  end\nend\nc1 = Shapes::Circle.new(2)\ndbtp c1.circumference\nu1 = Shapes.unit\ndbtp u1\nc1.diameter\n",
 		// string literals between index brackets on untyped / union / unknown receivers
 		"def fetch_it(params, key)\n  v = params[\"user name\"]\n  w = params[key + \" suffix\"]\n  w\nend\nfetch_it(1, \"k\")\nun = true ? [1] : {b: 2}\nun[\"idx key\"]\nun.after_idx\nzork_undefined[\"str key\"]\n1.after_index\n",
 		// blocks whose parameters are observable, on a union receiver, on merge!, and after an undefined method
